@@ -262,7 +262,10 @@ class Metadata(CbMixin, ProgMixin):
         self.meta_version = info.get("meta version", 1)
         self.pieces = info.get("pieces", bytes())
         if self.meta_version == 2:
-            self._parse_tree(info["file tree"], [self.name])
+            tree = info["file tree"]
+            single = "length" in info or (list(tree) == [self.name]
+                                          and "" in tree[self.name])
+            self._parse_tree(tree, [] if single else [self.name])
         elif "length" in info:
             self.length += info["length"]
             self.is_file = True
@@ -341,7 +344,7 @@ class Metadata(CbMixin, ProgMixin):
             _checked(key)
             if "" in val:
                 self.filenames.add(key)
-                path = Path(os.path.join(*partials))
+                path = Path(os.path.join(*partials)) if partials else Path()
                 full = Path(os.path.join(path, key))
                 length = val[""]["length"]
                 root = val[""].get("pieces root")
